@@ -5,6 +5,11 @@ import (
 	"crypto/aes"
 	"crypto/cipher"
 	"fmt"
+	"hash/adler32"
+	"hash/crc32"
+	"hash/fnv"
+	"runtime"
+	"sync"
 
 	"github.com/welllog/golib/cryptz"
 
@@ -315,10 +320,27 @@ func genHist(r *core.Rand, tier string) core.Case {
 	lines := []string{"@ C08 hist"}
 	ks := []int{16, 24, 32}[r.Intn(3)]
 	key := r.Bytes(ks)
+	// a quarter of the histories alternate between two keys that share a cheap identity
+	// (same CRC-32 / Adler-32 / FNV / byte sum / ends): a memo keyed on such an identity
+	// confuses them
+	var pair *keyPair
+	if ps := collisionPairs(); len(ps) > 0 && r.Chance(25) {
+		pair = &ps[r.Intn(len(ps))]
+		key = pair.k1
+	}
 	prev := append([]byte{}, key...)
 	n := r.Range(4, 12)
 	for i := 0; i < n; i++ {
-		if i > 0 {
+		if i > 0 && pair != nil {
+			prev = append([]byte{}, key...)
+			if r.Chance(70) {
+				if bytes.Equal(key, pair.k1) {
+					key = pair.k2
+				} else {
+					key = pair.k1
+				}
+			}
+		} else if i > 0 {
 			prev = append([]byte{}, key...)
 			switch r.Pick(35, 35, 15, 15) {
 			case 0: // one bit of the key buffer flipped
@@ -357,6 +379,86 @@ func genHist(r *core.Rand, tier string) core.Case {
 		}
 	}
 	return core.Case{Lines: lines, Tag: "history"}
+}
+
+// ---------- keys that a content-hash-keyed memo cannot tell apart
+
+// weakIdentities: cheap "identities" of a key that a cache might be keyed on instead of the key
+// itself.  For each of them and each key size, collisionPairs finds two DIFFERENT keys of that
+// size with the same identity (32-bit checksums: by a birthday search over a few hundred thousand
+// random keys — no algebra needed, works for any 32-bit function; the structural ones: built).
+var weakIdentities = []struct {
+	name string
+	f    func([]byte) uint32
+}{
+	{"crc32-ieee", crc32.ChecksumIEEE},
+	{"crc32-castagnoli", func(b []byte) uint32 { return crc32.Checksum(b, crc32.MakeTable(crc32.Castagnoli)) }},
+	{"crc32-koopman", func(b []byte) uint32 { return crc32.Checksum(b, crc32.MakeTable(crc32.Koopman)) }},
+	{"adler32", adler32.Checksum},
+	{"fnv1a-32", func(b []byte) uint32 { h := fnv.New32a(); h.Write(b); return h.Sum32() }},
+	{"fnv1-32", func(b []byte) uint32 { h := fnv.New32(); h.Write(b); return h.Sum32() }},
+	{"fnv1a-64-folded", func(b []byte) uint32 { h := fnv.New64a(); h.Write(b); v := h.Sum64(); return uint32(v) ^ uint32(v>>32) }},
+	{"byte-sum", func(b []byte) uint32 {
+		var v uint32
+		for _, x := range b {
+			v += uint32(x)
+		}
+		return v
+	}},
+	{"xor-fold-32", func(b []byte) uint32 {
+		var v uint32
+		for i, x := range b {
+			v ^= uint32(x) << (8 * (i % 4))
+		}
+		return v
+	}},
+	{"first8-last8", func(b []byte) uint32 {
+		h := fnv.New32a()
+		h.Write(b[:8])
+		h.Write(b[len(b)-8:])
+		return h.Sum32()
+	}},
+}
+
+type keyPair struct {
+	what   string
+	k1, k2 []byte
+}
+
+var (
+	collOnce  sync.Once
+	collPairs []keyPair
+)
+
+func collisionPairs() []keyPair {
+	collOnce.Do(func() {
+		for wi, w := range weakIdentities {
+			for _, ks := range []int{16, 24, 32} {
+				r := core.NewRand(uint64(0xc011151 + 97*wi + ks))
+				seen := make(map[uint32][]byte, 1<<19)
+				found := 0
+				for n := 0; n < 3000000 && found < 2; n++ {
+					k := r.Bytes(ks)
+					if w.name == "first8-last8" && ks > 16 && n%2 == 1 {
+						// same ends, another middle
+						for _, o := range seen {
+							k = append([]byte{}, o...)
+							k[9] ^= 0x5a
+							break
+						}
+					}
+					v := w.f(k)
+					if o, ok := seen[v]; ok && !bytes.Equal(o, k) {
+						collPairs = append(collPairs, keyPair{fmt.Sprintf("%s/%d", w.name, ks), o, k})
+						found++
+						continue
+					}
+					seen[v] = k
+				}
+			}
+		}
+	})
+	return collPairs
 }
 
 // rejectedKinds: every way a call can be turned down, per helper
@@ -678,6 +780,15 @@ func corpus() []core.Case {
 			}
 		}
 	}
+	// KEYS WITH A COMMON CHEAP IDENTITY, enumerated: for every weak identity × key size two different
+	// keys that agree on it, used in consecutive calls of every helper pair; the message of the third
+	// call was made under the OTHER key and must not open
+	for pi, kp := range collisionPairs() {
+		a, b := hOps[pi%4], hOps[(pi/4)%4]
+		cs = append(cs, core.Case{Lines: []string{"@ C08 hist", mkH(a, kp.k1, kp.k1, 20), mkH(b, kp.k2, kp.k2, 33),
+			mkH("gcmdec", kp.k2, kp.k1, 5), mkH("cbcenc", kp.k1, kp.k1, 16), mkH("cbcdec", kp.k2, kp.k2, 7),
+			mkH("gcmenc", kp.k1, kp.k1, 0), mkH("gcmenc", kp.k2, kp.k2, 0)}, Tag: "history"})
+	}
 	// AFTER A FAILURE, enumerated: a valid call under key 1, then a call with key 2 (buffer
 	// overwritten in place) that must be rejected, then valid calls under key 2 — for every key
 	// size, every kind of rejection and every helper that follows
@@ -913,4 +1024,92 @@ func extraLargeInputs(ctx *core.Ctx) (int, string, []core.ExtraFailure) {
 		}
 	}
 	return evals, fmt.Sprintf("plaintext sizes %v × {fresh, in-place} × key sizes: length helper, AESCBCEncrypt/Decrypt, AESGCMEncrypt/Decrypt (AD as long as the plaintext in every second one) equal crypto/cipher", sizes), fails
+}
+
+
+// AESCBCDecrypt / AESCBCEncrypt on "plaintext of any length": 4–6 MiB, separate dst and in place,
+// with the scheduler as it is and with GOMAXPROCS(1) (a helper goroutine of the library then
+// starts only when the caller blocks: anything that reads its input "live" instead of taking a
+// copy first sees memory the caller has already overwritten in place).  Compared with
+// crypto/cipher only (no hex protocol at this size).  Sizes around 4 MiB in every tier; the
+// bigger ones in the thorough tier and on anchor drift.
+func extraHugeCBC(ctx *core.Ctx) (int, string, []core.ExtraFailure) {
+	sizes := []int{4<<20 - 16, 4 << 20, 4<<20 + 16}
+	if ctx.Tier == "thorough" || ctx.Escalate > 1 {
+		sizes = append(sizes, 1<<20+16, 2<<20, 4<<20+64<<10+16, 5<<20+48, 6 << 20, 8<<20 + 16)
+	}
+	r := ctx.Rand.Fork()
+	evals := 0
+	var fails []core.ExtraFailure
+	for si, n := range sizes {
+		seed := r.Uint64()
+		dr := core.NewRand(seed)
+		key := dr.Bytes([]int{16, 24, 32}[si%3])
+		iv := dr.Bytes(16)
+		pt := dr.Bytes(n - 1 - si%15) // padded length = n
+		want := rawCBC(key, iv, stdPad16(pt))
+		for _, procs := range []int{0, 1} {
+			for _, lay := range []string{"fresh", "inplace"} {
+				evals++
+				var msg string
+				run := func() {
+					if procs > 0 {
+						old := runtime.GOMAXPROCS(procs)
+						defer runtime.GOMAXPROCS(old)
+					}
+					// encrypt
+					encLen := cryptz.AESCBCEncryptLen(pt)
+					var dst, src []byte
+					if lay == "fresh" {
+						dst, src = make([]byte, encLen), append([]byte{}, pt...)
+					} else {
+						buf := make([]byte, encLen)
+						copy(buf, pt)
+						dst, src = buf, buf[:len(pt)]
+					}
+					if err := cryptz.AESCBCEncrypt(dst, src, key, iv); err != nil || !bytes.Equal(dst, want) {
+						msg = fmt.Sprintf("AESCBCEncrypt: err=%v, result differs from standard CBC over the padded plaintext (first difference at byte %d)", err, firstDiff(dst, want))
+						return
+					}
+					// decrypt
+					ct := append([]byte{}, want...)
+					out := ct
+					if lay == "fresh" {
+						out = make([]byte, len(ct))
+					}
+					m, err := cryptz.AESCBCDecrypt(out, ct, key, iv)
+					if err != nil || m != len(pt) || !bytes.Equal(out[:len(pt)], pt) {
+						d := -1
+						if m <= len(out) && m >= 0 {
+							d = firstDiff(out[:min(len(pt), len(out))], pt)
+						}
+						msg = fmt.Sprintf("AESCBCDecrypt: n=%d err=%v, want n=%d and the plaintext back (first difference at byte %d)", m, err, len(pt), d)
+					}
+				}
+				if core.Guard(func() string { run(); return "" }) == "panic" {
+					msg = "panic"
+				}
+				if msg != "" && len(fails) < 3 {
+					fails = append(fails, core.ExtraFailure{
+						Failure: core.Failure{Key: "cbc-huge-" + lay, Desc: fmt.Sprintf("padded length %d, layout %s, GOMAXPROCS %d: %s", len(want), lay, procs, msg)},
+						Payload: map[string]any{"regenerate": "dr := core.NewRand(data_seed); key := dr.Bytes(key_len); iv := dr.Bytes(16); pt := dr.Bytes(plaintext_len)",
+							"data_seed": seed, "key_len": len(key), "plaintext_len": len(pt), "layout": lay, "gomaxprocs": procs, "key": hx(key), "iv": hx(iv)},
+					})
+				}
+			}
+		}
+	}
+	return evals, fmt.Sprintf("AESCBCEncrypt + AESCBCDecrypt on padded lengths %v × {separate dst, in place} × {GOMAXPROCS as is, 1}: equal to crypto/cipher", sizes), fails
+}
+
+func firstDiff(a, b []byte) int {
+	for i := 0; i < len(a) && i < len(b); i++ {
+		if a[i] != b[i] {
+			return i
+		}
+	}
+	if len(a) != len(b) {
+		return min(len(a), len(b))
+	}
+	return -1
 }
